@@ -1,3 +1,4 @@
+-- executable model (core Lean only) and driver
 import AspireModel.Model.Num
 import AspireModel.Model.Wire
 import AspireModel.Model.Weights
@@ -5,4 +6,17 @@ import AspireModel.Model.Rows
 import AspireModel.Model.Tempering
 import AspireModel.Model.Schedule
 import AspireModel.Model.Smc
+import AspireModel.Model.Eval
+import AspireModel.Model.CkptFile
 import AspireModel.Driver
+-- property theorems (these import single Mathlib modules)
+import AspireModel.Props.C02
+import AspireModel.Props.C05
+import AspireModel.Props.C06
+import AspireModel.Props.C07
+import AspireModel.Props.C08
+import AspireModel.Props.C09
+import AspireModel.Props.C11
+import AspireModel.Props.C12
+import AspireModel.Props.C16
+import AspireModel.Props.C18
